@@ -147,6 +147,10 @@ def mutationHandler (name : String) : Handler := fun j => do
       | "mutToggleEnable" => (MutationSpec.paramOnlyRel g implG).orElse (fun _ => MutationSpec.toggleRel g implG)
       | "mutGeneReEnable" => (MutationSpec.paramOnlyRel g implG).orElse (fun _ => MutationSpec.reenableRel weq g implG)
       | _ => MutationSpec.paramOnlyRel g implG
+  -- "changing nothing else" includes the genome's own bookkeeping: every pointer still owned, looking a node up by id
+  -- still returns it (the input's bits were fine: `inputWF`)
+  let c05 : Option String := c05.orElse fun _ =>
+    if implErr.isSome || !inputWF || ownBitsOk implGJ then none else some "bookkeeping-not-maintained"
   let inputWF1 := inputWF && decide (C01.TraitIdsNonzero g) && g.modules.isEmpty
   let genesis := (fldStr out "genesis").toOption.getD ""
   let c01 : Bool × String × String :=
